@@ -142,31 +142,42 @@ func c06Smoothing(ctx *run.Ctx) {
 	for _, row := range reg.SortedStrats() {
 		row := row
 		ctx.Case("smoothing/"+row.Name, func(cc *run.Case) {
+			// short periods (a fixed random configuration of the row, periods <= 12):
+			// the averages are warm after a few bars and cross often
+			cfg := row.Rand(gen.New(11, "smoothing-cfg/"+row.Name))
 			var fields []floatField
-			collectFloatFields(reflect.ValueOf(row.New(row.Default)), "", 0, &fields)
+			collectFloatFields(reflect.ValueOf(row.New(cfg)), "", 0, &fields)
 			n := 0
 			for fi := range fields {
 				if !strings.HasSuffix(fields[fi].path, "Smoothing") {
 					continue
 				}
-				changed := false
-				for k := 0; k < 4 && !changed; k++ {
-					snaps := reg.Snaps(gen.Bars(gen.New(ctx.Seed, fmt.Sprintf("smoothing/%d", k)), gen.Walk, 400))
-					base := runStrat(row.New(row.Default), snaps)
-					inst := row.New(row.Default)
-					var fs []floatField
-					collectFloatFields(reflect.ValueOf(inst), "", 0, &fs)
-					if fi >= len(fs) || fs[fi].path != fields[fi].path {
-						changed = true
-						break
+				differing := 0
+				for k := 0; k < 8; k++ {
+					snaps := reg.Snaps(gen.Bars(gen.New(ctx.Seed, fmt.Sprintf("smoothing/%d", k)), gen.Walk, 600))
+					base := runStrat(row.New(cfg), snaps)
+					for _, f := range []func(float64) float64{func(x float64) float64 { return x*1.5 + 0.25 }, func(x float64) float64 { return x * 0.4 }} {
+						inst := row.New(cfg)
+						var fs []floatField
+						collectFloatFields(reflect.ValueOf(inst), "", 0, &fs)
+						if fi >= len(fs) || fs[fi].path != fields[fi].path {
+							differing = 1 << 20
+							continue
+						}
+						fs[fi].v.SetFloat(f(fs[fi].v.Float()))
+						alt := runStrat(inst, snaps)
+						for i := range base {
+							if i >= len(alt) || alt[i] != base[i] {
+								differing++
+							}
+						}
 					}
-					fs[fi].v.SetFloat(fs[fi].v.Float()*1.5 + 0.25)
-					changed = !eqActions(runStrat(inst, snaps), base)
 				}
 				n++
 				cc.Count("public_smoothing_fields_probed", 1)
-				if !changed {
-					cc.Viol("", fmt.Sprintf("%s: changing the public field %s changes no recommendation on four 400-bar series: the strategy ignores that part of its configuration", row.Name, fields[fi].path), map[string]any{"strategy": row.Name, "field": fields[fi].path})
+				cc.Count("smoothing_differing:"+row.Name+"."+fields[fi].path, int64(differing))
+				if differing == 0 {
+					cc.Viol("", fmt.Sprintf("%s %v: changing the public field %s (x1.5+0.25, x0.4) changes not one recommendation on eight 600-bar series: the strategy ignores that part of its configuration", row.Name, cfg, fields[fi].path), map[string]any{"strategy": row.Name, "field": fields[fi].path})
 					return
 				}
 			}
